@@ -51,8 +51,8 @@ pub fn jobs(prop: &str, tier: Tier) -> Vec<(String, u64)> {
         ("C06", Tier::Quick) => q(&["V2", "V3", "G3", "S", "R", "P3"]),
         ("C06", Tier::Thorough) => q(&["V2", "V3", "G3", "G4", "D3", "D4", "F3", "S", "R", "P3", "P4", "T3"]),
         ("C17", _) => q(&["R"]),
-        ("C18", Tier::Quick) => q(&["T3", "R"]),
-        ("C18", Tier::Thorough) => q(&["T3", "R", "D3", "S"]),
+        ("C18", Tier::Quick) => q(&["T3", "R", "S", "V2"]),
+        ("C18", Tier::Thorough) => q(&["T3", "R", "D3", "S", "V2", "V3"]),
         ("C19", Tier::Quick) => q(&["G3", "D3", "F3q", "P3", "S", "R"]),
         ("C19", Tier::Thorough) => q(&["G3", "G4", "D3", "D3p", "F3", "P3", "P4", "S", "R", "T3"]),
         _ => vec![],
@@ -326,6 +326,16 @@ pub fn phases<'a>(s: &Scenario, ex: &'a Execution) -> Vec<Phase<'a>> {
 
 type Findings = Vec<(String, String)>;
 
+/// The properties exclude phony aliases used as dirtying inputs (finding F8:
+/// such a consumer is re-run on every invocation because the alias is never
+/// a file).  Steps of that kind are not judged for up-to-dateness.
+fn phony_dirtying_input(p: &Project, step: usize) -> bool {
+    p.steps[step]
+        .dirtying_ins()
+        .iter()
+        .any(|f| p.producer(f).map(|q| p.steps[q].phony).unwrap_or(false))
+}
+
 fn name(p: &Project, step: usize) -> String {
     p.steps[step].outs[0].clone()
 }
@@ -555,7 +565,7 @@ pub fn monitor_c05(s: &Scenario, ex: &Execution) -> Findings {
                         }
                     }
                     let d = ex.sim.model.is_dirty(p, st);
-                    if d.is_dirty() {
+                    if d.is_dirty() && !phony_dirtying_input(p, st) {
                         f.push(("undamaged-step-left-out-of-date".into(), format!("{} is not downstream of any failure and the budget was not used up, but it was left out of date ({:?})", name(p, st), d)));
                     }
                 }
@@ -646,7 +656,7 @@ pub fn monitor_c06(s: &Scenario, ex: &Execution) -> Findings {
                             continue;
                         }
                         let d = ex.sim.model.is_dirty(ph.project, st);
-                        if d.is_dirty() && !s.adopt {
+                        if d.is_dirty() && !s.adopt && !phony_dirtying_input(ph.project, st) {
                             f.push(("wanted-step-left-out-of-date".into(), format!("the invocation succeeded but {} is out of date ({:?})", name(ph.project, st), d)));
                         }
                     }
@@ -721,7 +731,7 @@ pub fn monitor_c18(s: &Scenario, ex: &Execution) -> Findings {
                 if ph.project.steps[st].phony {
                     continue;
                 }
-                if ex.sim.model.is_dirty(ph.project, st).is_dirty() && !s.adopt {
+                if ex.sim.model.is_dirty(ph.project, st).is_dirty() && !s.adopt && !phony_dirtying_input(ph.project, st) {
                     f.push(("closure-step-left-out-of-date".into(), format!("{} is needed by the requested targets but was left out of date", name(ph.project, st))));
                 }
             }
@@ -963,7 +973,7 @@ pub fn explore(ctx: &Ctx, fam: &str, idx: usize, s: &Scenario, res: &mut ShardRe
                 || json!({"job": job, "family": fam, "index": idx, "choices": chosen, "scenario": s.describe()}),
             );
         }
-        if idx % 997 == 0 && executions == 1 {
+        if (res.samples.is_empty() || idx % 997 == 0) && executions == 1 {
             res.sample(|| json!({"family": fam, "index": idx, "scenario": s.describe(), "choices": chosen, "trace": short_trace(&ex)}));
         }
         if only_prefix.is_some() {
